@@ -105,6 +105,48 @@ class SymDT(datetime):
     def tzinfo(self):
         return None
 
+    # calendar fields of the wall-clock value (the inherited ones belong to the dummy base object: never expose them)
+    @property
+    def second(self):
+        return SymNum(self.t % 60)
+
+    @property
+    def minute(self):
+        return SymNum((self.t / 60) % 60)
+
+    @property
+    def hour(self):
+        return SymNum((self.t / 3600) % 24)
+
+    @property
+    def microsecond(self):
+        return 0
+
+    def _no_field(self, name):
+        raise Unsupported(f"datetime.{name} of a symbolic timestamp is not modelled")
+
+    day = property(lambda self: self._no_field("day"))
+    month = property(lambda self: self._no_field("month"))
+    year = property(lambda self: self._no_field("year"))
+
+    def weekday(self):
+        return SymNum(((self.t / 86400) + 3) % 7)   # 1970-01-01 was a Thursday (weekday 3)
+
+    def date(self):
+        self._no_field("date()")
+
+    def time(self):
+        self._no_field("time()")
+
+    def timetuple(self):
+        self._no_field("timetuple()")
+
+    def isoformat(self, *a, **k):
+        return repr(self)
+
+    def strftime(self, *a):
+        self._no_field("strftime()")
+
     def utcoffset(self):
         return None
 
@@ -177,6 +219,50 @@ class SymTD:
 
     def total_seconds(self):
         return SymNum(self.t)
+
+    # timedelta normal form: days = floor(t / 86400), 0 <= seconds < 86400 (also for negative deltas)
+    @property
+    def days(self):
+        return SymNum(self.t / 86400)
+
+    @property
+    def seconds(self):
+        return SymNum(self.t % 86400)
+
+    @property
+    def microseconds(self):
+        return 0
+
+    def _cmp(self, o, f):
+        if isinstance(o, timedelta):
+            return SymBool(f(self.t, z3.IntVal(_td_secs(o))))
+        if isinstance(o, SymTD):
+            return SymBool(f(self.t, o.t))
+        return NotImplemented
+
+    def __lt__(self, o):
+        return self._cmp(o, lambda a, b: a < b)
+
+    def __le__(self, o):
+        return self._cmp(o, lambda a, b: a <= b)
+
+    def __gt__(self, o):
+        return self._cmp(o, lambda a, b: a > b)
+
+    def __ge__(self, o):
+        return self._cmp(o, lambda a, b: a >= b)
+
+    def __sub__(self, o):
+        if isinstance(o, timedelta):
+            return SymTD(self.t - z3.IntVal(_td_secs(o)))
+        if isinstance(o, SymTD):
+            return SymTD(self.t - o.t)
+        return NotImplemented
+
+    def __rsub__(self, o):
+        if isinstance(o, timedelta):
+            return SymTD(z3.IntVal(_td_secs(o)) - self.t)
+        return NotImplemented
 
     def __floordiv__(self, o):
         if isinstance(o, timedelta):
@@ -251,7 +337,47 @@ class DTShim(metaclass=_DTMeta):
         return datetime.now(*a, **k)
 
 
+class _TDMeta(type):
+    def __instancecheck__(cls, x):
+        return isinstance(x, (timedelta, SymTD))
+
+    def __call__(cls, *a, **k):
+        vals = list(a) + list(k.values())
+        if not any(isinstance(v, SymNum) for v in vals):
+            return timedelta(*a, **k)
+        names = ["days", "seconds", "microseconds", "milliseconds", "minutes", "hours", "weeks"]
+        kw = dict(zip(names, a))
+        kw.update(k)
+        mult = dict(days=86400, seconds=1, minutes=60, hours=3600, weeks=604800)
+        total = z3.IntVal(0)
+        for name, v in kw.items():
+            if name in ("microseconds", "milliseconds"):
+                if isinstance(v, SymNum) or v:
+                    raise Unsupported("sub-second timedelta")
+                continue
+            t = v.t if isinstance(v, SymNum) else z3.IntVal(int(v))
+            if t.sort().kind() != z3.Z3_INT_SORT:
+                raise Unsupported("non-integer symbolic timedelta component")
+            total = total + t * mult[name]
+        return SymTD(total)
+
+
+class TDShim(metaclass=_TDMeta):
+    """stands in for the name `timedelta` in hexital modules (symbolic components build a SymTD)"""
+    min = timedelta.min
+    max = timedelta.max
+    resolution = timedelta.resolution
+
+
 def install():
+    import sys
+
     import hexital.utils.timeframe as tfm
 
     tfm.datetime = DTShim
+    for n, m in list(sys.modules.items()):
+        if (n == "hexital" or n.startswith("hexital.")) and m is not None:
+            if m.__dict__.get("timedelta") is timedelta:
+                m.__dict__["timedelta"] = TDShim
+            if m.__dict__.get("datetime") is datetime and n != "hexital.utils.timeframe":
+                m.__dict__["datetime"] = DTShim
